@@ -17,7 +17,7 @@ RULE = ("grammar-directed files per format (BED3/6/12, bedGraph, narrowPeak, chr
         "LF/CRLF, header/comment lines; exhaustive width vectors {1,2,3,9}^(rows x 3 cols) for BED3 and chrom.sizes. "
         "Non-trivial = >= 2 rows with unequal widths in some column, or a sign / '.' / CRLF / comment line present")
 EXHAUSTIVE = {"quick": False, "thorough": False}
-MODEL_OPS = {"parse"}
+MODEL_OPS = {"parse"}          # "parse_x": same observation, implementation vs reference parser only (typed INFO, genotypes)
 PARALLEL = 16
 ASSUMPTIONS = [
     "NumPy flatnonzero/reshape/fancy indexing and npstructures RaggedView slicing have their list-level meaning (modelled as positions/slices)",
@@ -415,6 +415,8 @@ def _case(fmt, lines, crlf, via="open", flavour=None):
     c = {"op": "parse", "fmt": fmt, "text": "".join(l + eol for l in lines), "via": via}
     if flavour:
         c["flavour"] = flavour
+        if flavour not in ("VCFBuffer", "VCFWithInfoAsStringBuffer") or any(l.startswith("##INFO") for l in lines):
+            c["op"] = "parse_x"
     return c
 
 
@@ -574,7 +576,7 @@ def _ref_cell(kind, t):
     if kind == "float":
         if not _FLOAT.match(t):
             raise _Bad
-        return _fl(float(t))
+        return "t:" + t                 # the text; compared by value (see agree)
     if kind == "strand":
         if t not in ("+", "-", "."):
             raise _Bad
@@ -792,12 +794,28 @@ def _norm_special(c, got):
     return got
 
 
+def _conv(x):
+    """float cells given as text ("t:<text>") -> value"""
+    if isinstance(x, str) and x.startswith("t:"):
+        try:
+            return _fl(float(x[2:]))
+        except ValueError:
+            return x
+    if isinstance(x, list):
+        return [_conv(y) for y in x]
+    if isinstance(x, dict):
+        return {k: _conv(v) for k, v in x.items()}
+    return x
+
+
 def agree(c, got, exp):
-    return _same(_norm_special(c, got), exp)
+    return _same(_norm_special(c, got), _conv(exp))
 
 
 def agree_model(c, got, m):
-    """Lean model keeps float cells as text ("t:<text>"): compare those by value"""
+    """Lean model keeps float cells as text ("t:<text>"): compare those by value; error classes are C15's business"""
+    if isinstance(got, dict) and isinstance(m, dict) and "err" in got and "err" in m:
+        return True
     def conv(x):
         if isinstance(x, str) and x.startswith("t:"):
             try:
